@@ -128,7 +128,7 @@ def totality(ctx: Ctx, spec, dtype):
     n = rng.choice([1, 2, 3, 7])
     if m < spec.min_rows:
         m = spec.min_rows + rng.choice([0, 1])
-    kind = rng.choice(["gauss", "rankdef", "zero_row", "dup", "scaled", "scaled", "zero"])
+    kind = rng.choice(["gauss", "rankdef", "zero_row", "dup", "scaled", "scaled", "zero", "pairs"])
     g = torch.Generator().manual_seed(rng.randrange(2 ** 31))
     J = torch.randn(m, n, generator=g, dtype=torch.float64)
     if kind == "rankdef" and m > 1:
@@ -137,6 +137,10 @@ def totality(ctx: Ctx, spec, dtype):
         J[rng.randrange(m)] = 0
     if kind == "dup" and m > 1:
         J[-1] = J[0]
+    if kind == "pairs" and m >= 4:
+        # a, a, b, b, (c …): DIFFERENT rows with exactly equal scores / norms — whatever breaks the tie must be a function of J
+        J[1] = J[0]
+        J[3] = J[2]
     if kind == "zero":
         J = J * 0
     ex = 0.0
@@ -205,6 +209,15 @@ def totality(ctx: Ctx, spec, dtype):
         ctx.count("refill_history", how)
         if msg is not None:
             ctx.violation(f"{spec.name}: {msg} (the result depends on an earlier call)", {**rp, "check": "refill history", "how": how})
+            return False
+    if not spec.random and spec.name != "GradDrop":
+        # a deterministic aggregator is a function of the matrix: the state of the global random generator must not matter
+        torch.manual_seed(seed + 12345)
+        st4, x4 = attempt(A, J)
+        ctx.count("generator_independence_checked", spec.name)
+        if st4 != "ok" or not torch.equal(x, x4):
+            ctx.violation(f"{spec.name} is deterministic, but its result on the same matrix changes with the state of torch's global "
+                          f"random generator: {x.tolist()} under seed {seed}, {x4.tolist() if st4 == 'ok' else x4} under seed {seed + 12345}", rp)
             return False
     torch.manual_seed(seed)
     st2, x2 = attempt(A, J)
